@@ -3,6 +3,7 @@
   (`Spec.Eval.applyFn`), on related arguments: isNonnull, length, strContains, hasData, range.
 -/
 import SoyVerif.Lemmas.RangeRefine
+import SoyVerif.Lemmas.F64Floor
 
 namespace SoyVerif.Refine
 open SoyVerif SoyVerif.Model SoyVerif.Model.Eval
@@ -401,14 +402,85 @@ theorem augment_agree (mvs : List Value) (next : Nat) : FnAgree fAugmentMap mvs 
   · simp [FnAgree, absL, Spec.Eval.applyFn, applyFunc, arityOk, funcArities, fAugmentMap, Spec.Eval.nAugmentMap, Spec.Eval.nKeys, Spec.Eval.nIsNonnull,
       Spec.Eval.nLength, fIsNonnull, fLength, fKeys]
 
+/-! ### floor / ceiling: `int64(math.Floor(x))` is the exact floor of the value (Lemmas/F64Floor.lean) -/
+
+theorem floor_agree (mvs : List Value) (next : Nat) : FnAgree fFloor mvs next := by
+  rcases mvs with _ | ⟨a, _ | ⟨b, r⟩⟩
+  · simp [FnAgree, absL, absV, Spec.Eval.applyFn, applyFunc, arityOk, funcArities, Spec.Eval.nIsNonnull, Spec.Eval.nLength, Spec.Eval.nKeys, Spec.Eval.nAugmentMap, Spec.Eval.nRound, Spec.Eval.nFloor, Spec.Eval.nCeiling, Spec.Eval.nMin, Spec.Eval.nMax, Spec.Eval.nStrContains, Spec.Eval.nRange, Spec.Eval.nHasData, fIsNonnull, fLength, fKeys, fAugmentMap, fRound, fFloor, fCeiling, fMin, fMax, fStrContains, fRange, fRandomInt, fHasData, toFloat, Spec.Eval.floorSpec]
+  · cases a <;> simp [FnAgree, absL, absV, Spec.Eval.applyFn, applyFunc, arityOk, funcArities, Spec.Eval.nIsNonnull, Spec.Eval.nLength, Spec.Eval.nKeys, Spec.Eval.nAugmentMap, Spec.Eval.nRound, Spec.Eval.nFloor, Spec.Eval.nCeiling, Spec.Eval.nMin, Spec.Eval.nMax, Spec.Eval.nStrContains, Spec.Eval.nRange, Spec.Eval.nHasData, fIsNonnull, fLength, fKeys, fAugmentMap, fRound, fFloor, fCeiling, fMin, fMax, fStrContains, fRange, fRandomInt, fHasData, toFloat, Spec.Eval.floorSpec]
+    rename_i f
+    by_cases hn : f.isNaN = true
+    · simp [hn]
+    by_cases hi : f.isInf = true
+    · simp [hi]
+    have hn' : f.isNaN = false := by simpa using hn
+    have hi' : f.isInf = false := by simpa using hi
+    have hc : ¬ (f.isNaN = true ∨ f.isInf = true) := by simp [hn', hi']
+    rw [if_neg hc]
+    obtain ⟨t1, t2, t3⟩ := F64.floor_trunc f hn' hi'
+    refine ⟨fun v hv => ?_, fun h => ?_⟩
+    · simp only [Spec.Eval.intRes] at hv
+      split at hv
+      · rename_i hin
+        simp only [Out.val.injEq] at hv
+        rw [← hv]
+        have hr := (inI64_iff _).mp hin
+        have e : (2 : Int) ^ 63 = 9223372036854775808 := by decide
+        rw [e] at hr
+        congr 1
+        refine F64.toInt64Trunc_of _ _ t1 t2 ?_ hr.1 hr.2
+        rw [t3]
+      · simp at hv
+    · simp only [Spec.Eval.intRes] at h
+      split at h <;> simp at h
+  · simp [FnAgree, absL, absV, Spec.Eval.applyFn, applyFunc, arityOk, funcArities, Spec.Eval.nIsNonnull, Spec.Eval.nLength, Spec.Eval.nKeys, Spec.Eval.nAugmentMap, Spec.Eval.nRound, Spec.Eval.nFloor, Spec.Eval.nCeiling, Spec.Eval.nMin, Spec.Eval.nMax, Spec.Eval.nStrContains, Spec.Eval.nRange, Spec.Eval.nHasData, fIsNonnull, fLength, fKeys, fAugmentMap, fRound, fFloor, fCeiling, fMin, fMax, fStrContains, fRange, fRandomInt, fHasData, toFloat, Spec.Eval.floorSpec]
+
+theorem ceiling_agree (mvs : List Value) (next : Nat) : FnAgree fCeiling mvs next := by
+  rcases mvs with _ | ⟨a, _ | ⟨b, r⟩⟩
+  · simp [FnAgree, absL, absV, Spec.Eval.applyFn, applyFunc, arityOk, funcArities, Spec.Eval.nIsNonnull, Spec.Eval.nLength, Spec.Eval.nKeys, Spec.Eval.nAugmentMap, Spec.Eval.nRound, Spec.Eval.nFloor, Spec.Eval.nCeiling, Spec.Eval.nMin, Spec.Eval.nMax, Spec.Eval.nStrContains, Spec.Eval.nRange, Spec.Eval.nHasData, fIsNonnull, fLength, fKeys, fAugmentMap, fRound, fFloor, fCeiling, fMin, fMax, fStrContains, fRange, fRandomInt, fHasData, toFloat, Spec.Eval.floorSpec]
+  · cases a <;> simp [FnAgree, absL, absV, Spec.Eval.applyFn, applyFunc, arityOk, funcArities, Spec.Eval.nIsNonnull, Spec.Eval.nLength, Spec.Eval.nKeys, Spec.Eval.nAugmentMap, Spec.Eval.nRound, Spec.Eval.nFloor, Spec.Eval.nCeiling, Spec.Eval.nMin, Spec.Eval.nMax, Spec.Eval.nStrContains, Spec.Eval.nRange, Spec.Eval.nHasData, fIsNonnull, fLength, fKeys, fAugmentMap, fRound, fFloor, fCeiling, fMin, fMax, fStrContains, fRange, fRandomInt, fHasData, toFloat, Spec.Eval.floorSpec]
+    rename_i f
+    by_cases hn : f.isNaN = true
+    · simp [hn]
+    by_cases hi : f.isInf = true
+    · simp [hi]
+    have hn' : f.isNaN = false := by simpa using hn
+    have hi' : f.isInf = false := by simpa using hi
+    have hc : ¬ (f.isNaN = true ∨ f.isInf = true) := by simp [hn', hi']
+    rw [if_neg hc]
+    have hce : -((-(Spec.Eval.ratOf f).1) / ((Spec.Eval.ratOf f).2 : Int)) =
+        (if (Spec.Eval.ratOf f).fst % ↑(Spec.Eval.ratOf f).snd = 0 then (Spec.Eval.ratOf f).fst / ↑(Spec.Eval.ratOf f).snd
+         else (Spec.Eval.ratOf f).fst / ↑(Spec.Eval.ratOf f).snd + 1) := by
+      rw [F64.ceil_ediv _ _ (F64.ratOf_den_pos f)]
+      simp only [beq_iff_eq]
+    rw [← hce]
+    obtain ⟨t1, t2, t3⟩ := F64.ceil_trunc f hn' hi'
+    refine ⟨fun v hv => ?_, fun h => ?_⟩
+    · simp only [Spec.Eval.intRes] at hv
+      split at hv
+      · rename_i hin
+        simp only [Out.val.injEq] at hv
+        rw [← hv]
+        have hr := (inI64_iff _).mp hin
+        have e : (2 : Int) ^ 63 = 9223372036854775808 := by decide
+        rw [e] at hr
+        congr 1
+        refine F64.toInt64Trunc_of _ _ t1 t2 ?_ hr.1 hr.2
+        rw [t3]
+      · simp at hv
+    · simp only [Spec.Eval.intRes] at h
+      split at h <;> simp at h
+  · simp [FnAgree, absL, absV, Spec.Eval.applyFn, applyFunc, arityOk, funcArities, Spec.Eval.nIsNonnull, Spec.Eval.nLength, Spec.Eval.nKeys, Spec.Eval.nAugmentMap, Spec.Eval.nRound, Spec.Eval.nFloor, Spec.Eval.nCeiling, Spec.Eval.nMin, Spec.Eval.nMax, Spec.Eval.nStrContains, Spec.Eval.nRange, Spec.Eval.nHasData, fIsNonnull, fLength, fKeys, fAugmentMap, fRound, fFloor, fCeiling, fMin, fMax, fStrContains, fRange, fRandomInt, fHasData, toFloat, Spec.Eval.floorSpec]
+
+
 /-- the builtins covered by the refinement theorem -/
 def fnOk (name : Bytes) : Bool :=
   name == fIsNonnull || name == fLength || name == fStrContains || name == fHasData || name == fRange ||
-  name == fMin || name == fMax || name == fKeys || name == fAugmentMap
+  name == fMin || name == fMax || name == fKeys || name == fAugmentMap || name == fFloor || name == fCeiling
 
 theorem fn_agree (name : Bytes) (h : fnOk name = true) (mvs : List Value) (next : Nat) : FnAgree name mvs next := by
   simp only [fnOk, Bool.or_eq_true, beq_iff_eq] at h
-  rcases h with (((((((rfl | rfl) | rfl) | rfl) | rfl) | rfl) | rfl) | rfl) | rfl
+  rcases h with (((((((((rfl | rfl) | rfl) | rfl) | rfl) | rfl) | rfl) | rfl) | rfl) | rfl) | rfl
   · exact nonnull_agree mvs next
   · exact length_agree mvs next
   · exact strContains_agree mvs next
@@ -418,10 +490,12 @@ theorem fn_agree (name : Bytes) (h : fnOk name = true) (mvs : List Value) (next 
   · exact max_agree mvs next
   · exact keys_agree mvs next
   · exact augment_agree mvs next
+  · exact floor_agree mvs next
+  · exact ceiling_agree mvs next
 
 theorem fnOk_notLoop (name : Bytes) (h : fnOk name = true) : isLoopFunc name = false ∧ Spec.Eval.isLoopFn name = false := by
   simp only [fnOk, Bool.or_eq_true, beq_iff_eq] at h
-  rcases h with (((((((rfl | rfl) | rfl) | rfl) | rfl) | rfl) | rfl) | rfl) | rfl <;> exact ⟨by decide, by decide⟩
+  rcases h with (((((((((rfl | rfl) | rfl) | rfl) | rfl) | rfl) | rfl) | rfl) | rfl) | rfl) | rfl <;> exact ⟨by decide, by decide⟩
 
 theorem evalArgs_len {m : EEnv} : ∀ (args : ExprList) (n : Nat) (mvs : List Value) (n' : Nat),
     evalArgs m args n = some (mvs, n') → mvs.length = args.length
